@@ -161,7 +161,7 @@ func BartlettHannComplex(seq []complex128) []complex128 {
 //
 // The sequence weights are
 //
-//	w[k] = 25/46 - 21/46 * cos(2*π*k/(N-1)),
+//	w[k] = 0.54 - 0.46 * cos(2*π*k/(N-1)),
 //
 // for k=0,1,...,N-1 where N is the length of the window.
 //
@@ -317,7 +317,7 @@ func BlackmanNuttallComplex(seq []complex128) []complex128 {
 //
 //	w[k] = 0.21557895 - 0.41663158*cos(2*π*k/(N-1)) +
 //	       0.277263158*cos(4*π*k/(N-1)) - 0.083578947*cos(6*π*k/(N-1)) +
-//	       0.006947368*cos(4*π*k/(N-1)),
+//	       0.006947368*cos(8*π*k/(N-1)),
 //
 // for k=0,1,...,N-1 where N is the length of the window.
 //
